@@ -6,6 +6,8 @@ use std::hash::{Hash, Hasher};
 use vutil::{Collector, Local};
 
 pub const ALPHABET: [&str; 5] = ["\n", "\r", "a", "é", "€"];
+/// Byte-level diversity: extreme characters of the UTF-8 length classes (continuation bytes 0xBF / 0x80).
+pub const ALPHABET_EDGE: [&str; 5] = ["\n", "\u{7ff}", "\u{ffff}", "\u{10000}", "\u{80}"];
 
 fn h<T: Hash>(t: &T) -> u64 {
     let mut s = DefaultHasher::new();
@@ -220,16 +222,18 @@ pub fn run(col: &Collector, thorough: bool, _seed: u64, jobs: usize) -> Value {
     vutil::run_workers(jobs, col, |w, n| {
         let mut l = Local::new();
         let mut s = String::new();
-        for len in 0..=max_len {
-            let total = vutil::pow(k, len);
-            let mut idx = w as u64;
-            while idx < total {
-                vutil::nth_string(&ALPHABET, len, idx, &mut s);
-                check_string(&mut l, &s, len <= get_len);
-                if idx % 3001 == 11 {
-                    l.sample(json!({"input": s, "spans": "all (start,end) in 0..=len+1", "sub_ranges": len <= get_len}));
+        for (alphabet, limit) in [(&ALPHABET, max_len), (&ALPHABET_EDGE, max_len.saturating_sub(2))] {
+            for len in 0..=limit {
+                let total = vutil::pow(k, len);
+                let mut idx = w as u64;
+                while idx < total {
+                    vutil::nth_string(alphabet, len, idx, &mut s);
+                    check_string(&mut l, &s, len <= get_len);
+                    if idx % 3001 == 11 {
+                        l.sample(json!({"input": s, "spans": "all (start,end) in 0..=len+1", "sub_ranges": len <= get_len}));
+                    }
+                    idx += n as u64;
                 }
-                idx += n as u64;
             }
         }
         l
